@@ -38,6 +38,12 @@ P = {
                 text="All subsets of the configurable script slots of each format (128+128+64+64+16 packages) are built with slot-distinct contents, plus generated byte contents (empty, no trailing newline, arbitrary non-NUL bytes, large, brace lines); each slot decoded from control members / rpm tags / .INSTALL functions must equal the configured file byte for byte and unconfigured slots must be absent.",
                 rule="exhaustive slot subsets per format + rapid-generated script bytes over all 14 slots; non-trivial = >=2 populated slots with different bytes or a proper subset of slots; distinct by case hash",
                 assumptions=COMMON_ASSUME + ["NUL bytes are not generated (rpm scriptlets are C strings); an empty rpm scriptlet may be an absent tag"]),
+    "C05": dict(test="TestC05", level="exploration", quick=1500, thorough=(16, 4000), qtimeout=900, ttimeout=7200,
+                technique="bounded-exhaustive enumeration (all content lists of <=2 / <=3 entries over a small universe, all orders) + property-based testing (rapid) with injected collisions, against a reference planner; permutation and repetition metamorphic relations",
+                design="DESIGN.md 4/C05",
+                text="files.PrepareForPackager is compared with an independent reference planner: same verdict (success or errors.Is ErrContentCollision), same set of (destination, type, source), destinations unique as paths / absolute / clean / ancestors first, identical plan for every permutation of the list and for repeated runs. All lists of up to 2 entries over 6 destinations x 6 types x 3 packager tags x 4 packagers in every order run in quick, all triples in thorough; destination spellings over {/ . .. a b space} are enumerated up to 5 (quick) / 7 (thorough) tokens.",
+                rule="exhaustive universe (108 entries: 6 destinations x 6 types x 3 tags) singles+pairs (+triples in thorough) x 4 packagers x all orders; enumerated destination spellings x 3 types; rapid-generated lists (globs, trees) with an injected colliding entry in 2/3 of cases and 3 permutations; non-trivial = nodes equal or in ancestor relation (collision expected), or a glob/tree/dir expansion of >=2 files, or a non-canonical destination spelling; distinct by case hash",
+                assumptions=COMMON_ASSUME + ["destinations whose '..' climbs above the root and destinations denoting '/' are outside the domain (counted under excluded_by_construction)"]),
 }
 
 # property id -> reason, for properties that are not claimed
